@@ -7,6 +7,8 @@
  * Oracle: spec/activation_ref.h (clauses A1-A7, S2-S4, S7, D1, R1). */
 #include <config.h>
 #include "dbus/dbus-internals.h"
+#include <stdlib.h>
+#include <string.h>
 #include VERIF_TU
 #include "activation_ref.h"
 _Bool nondet_bool(void); int nondet_int(void); unsigned nondet_unsigned(void); long nondet_long(void); void *nondet_ptr(void);
